@@ -909,6 +909,22 @@ class Interp:
             return
         if isinstance(it, T) and self._search_loop(s, it, fr):
             return
+        if isinstance(it, ListV):
+            # a list is iterated by position over the live object: removing
+            # or inserting elements in the body shifts what comes next
+            i = 0
+            while i < len(it.items):
+                x = it.items[i]
+                i += 1
+                self.assign(s.target, x, fr)
+                try:
+                    self.exec_block(s.body, fr)
+                except _Break:
+                    return
+                except _Continue:
+                    continue
+            self.exec_block(s.orelse, fr)
+            return
         items = self.iterate(it)
         for x in items:
             self.assign(s.target, x, fr)
